@@ -9,7 +9,7 @@ import rewriters as R
 
 class C03(Prop):
     id = "C03"
-    driver = "Blocks"
+    driver = "Compose"
     lean_modules = ["Pfb.C03.Props"]
     theorems = [
         "Pfb.C03.C03_future_first",
@@ -117,10 +117,16 @@ class C03(Prop):
         return obs
 
     def model_requests(self, case, obs):
-        return R.block_requests(case, obs["trace"]) if "trace" in obs else []
+        if "trace" not in obs:
+            return []
+        b = R.block_requests(case, obs["trace"])
+        return b + R.text_requests(case, obs["trace"]) if b else []
 
     def compare(self, case, obs, resps):
-        return R.block_compare(case, obs["trace"], resps)
+        d = R.block_compare(case, obs["trace"], resps[:1])
+        if d is None and len(resps) > 1:
+            d = R.text_compare(case, obs["trace"], resps[1:2])
+        return d
 
     def oracle(self, case, obs):
         text = case["text"]
